@@ -1232,6 +1232,9 @@ func (vc *VC) scanCallEffects(c *ast.CallExpr, li *loopInfo) {
 			callee = sel.Obj().(*types.Func)
 			if rt := vc.typeOf(f.X); types.IsInterface(rt) {
 				ifaceT = rt
+			} else if r := callee.Type().(*types.Signature).Recv(); r != nil && types.IsInterface(r.Type()) {
+				// method promoted from an embedded interface field (e.g. Encoder.Write via io.Writer)
+				ifaceT = r.Type()
 			}
 		}
 	default:
